@@ -153,6 +153,20 @@ fn validate_cases(b: &Base, r: Option<&LayoutRules>) -> Vec<Case> {
                 usages.push(("non-multiple", copies as i128 * cells as i128 + 1, false));
             }
             usages.push(("minus-1-instance", -(cells as i128), false));
+            // ... and with ANOTHER builtin switched on (its ratio set): a switched-off builtin still holds no instance
+            if !on {
+                for (other, _, _, oflag, oratio) in DYN {
+                    if other == name || dp[oflag].as_u64().unwrap_or(0) == 1 {
+                        continue;
+                    }
+                    let mut p = b.pi.clone();
+                    p["dynamic_params"][oflag] = json!(1);
+                    p["dynamic_params"][oratio] = json!(1u64 << b.log_trace.min(40));
+                    p["dynamic_params"][ratio] = json!(1u64 << b.log_trace.min(40));
+                    p["segments"][seg]["stop_ptr"] = hexu(bg + cells);
+                    push(format!("{} usage 1 instance, flag off, {} switched on", name, other), "dyn-builtin-usage:off-while-another-is-on", p, b.log_trace);
+                }
+            }
             for (tag, u, force_off) in usages {
                 let stop = bg as i128 + u;
                 if stop < 0 || (force_off && on) {
